@@ -159,7 +159,8 @@ def bayer(case, ctx):
     ctx.nontrivial_if(ncol >= 2 and os_ >= 2)
     qes = [make_qe(d) for d in case["qe"]]
     with lentil_call("C16.bayer", f"collect_charge_bayer(pattern {case['pattern']}, os {os_}, image {img.shape[1:]})"):
-        out = detector.collect_charge_bayer(img, wave, qes[0], qes[1], qes[2], case["pattern"], oversample=os_,
+        out = detector.collect_charge_bayer(img, wave, qes[0], qes[1], qes[2], case["pattern"],
+                                            oversample=gen.typed_int(os_, img.shape[-1] + img.shape[-2] + k),
                                             waveunit=wu, flatten=case["flatten"])
         flat = out if case["flatten"] else detector.collect_charge_bayer(img, wave, qes[0], qes[1], qes[2],
                                                                          case["pattern"], oversample=os_, waveunit=wu)
